@@ -204,7 +204,8 @@ func (s *state) Add(ctx context.Context, transaction Transaction, payload []byte
 		return s.updateState(tx, transaction)
 	}, stoabs.OnRollback(func() {
 		log.Logger().Warn("Reloading the XOR and IBLT trees due to a DB transaction Rollback")
-		s.loadState(ctx)
+		// the rollback may be caused by the cancellation of ctx: the reload must not be cancelled with it
+		s.loadState(context.WithoutCancel(ctx))
 	}), stoabs.AfterCommit(func() {
 		if txAdded {
 			s.notify(txEvent)
